@@ -35,6 +35,30 @@ class _Undefined:
         return "<jsonpath.pointer.UNDEFINED>"
 
 
+def _unicode_escape(s: str) -> str:
+    # UTF-16 escape sequences - possibly surrogate pairs - inside UTF-8
+    # encoded strings. As per https://datatracker.ietf.org/doc/html/rfc4627
+    # section 2.5.
+    #
+    # The "unicode-escape" codec reads its input as Latin-1, so characters
+    # outside ASCII are turned into escape sequences first.
+    if "\\" not in s:
+        # Nothing to decode. This also leaves lone surrogates alone.
+        return s
+
+    try:
+        return (
+            codecs.decode(
+                s.replace("\\/", "/").encode("ascii", "backslashreplace"),
+                "unicode-escape",
+            )
+            .encode("utf-16", "surrogatepass")
+            .decode("utf-16")
+        )
+    except UnicodeError as err:
+        raise JSONPointerError(f"invalid escape sequence, {err}") from err
+
+
 UNDEFINED = _Undefined()
 
 
@@ -246,14 +270,7 @@ class JSONPointer:
         return ""
 
     def _unicode_escape(self, s: str) -> str:
-        # UTF-16 escape sequences - possibly surrogate pairs - inside UTF-8
-        # encoded strings. As per https://datatracker.ietf.org/doc/html/rfc4627
-        # section 2.5.
-        return (
-            codecs.decode(s.replace("\\/", "/"), "unicode-escape")
-            .encode("utf-16", "surrogatepass")
-            .decode("utf-16")
-        )
+        return _unicode_escape(s)
 
     @classmethod
     def from_match(
@@ -299,12 +316,7 @@ class JSONPointer:
         if uri_decode:
             _parts = (unquote(p) for p in _parts)
         if unicode_escape:
-            _parts = (
-                codecs.decode(p.replace("\\/", "/"), "unicode-escape")
-                .encode("utf-16", "surrogatepass")
-                .decode("utf-16")
-                for p in _parts
-            )
+            _parts = (_unicode_escape(p) for p in _parts)
 
         __parts = tuple(_parts)
 
